@@ -561,6 +561,13 @@ def overused_constant(source: str, *, root_is_static: bool) -> str:
         for node in core.walk(fstring, ast.AST):
             candidates.discard(node)
 
+    # A name in a match pattern captures instead of comparing, so literal patterns must stay
+    match_pattern_type = getattr(ast, "pattern", None)
+    if match_pattern_type is not None:
+        for pattern in core.walk(root, match_pattern_type):
+            for node in core.walk(pattern, ast.AST):
+                candidates.discard(node)
+
     # For every node, all scopes it can be found in
     scope_node_definitions = collections.defaultdict(set)
     for scope in itertools.chain([root], core.walk(root, (ast.FunctionDef, ast.AsyncFunctionDef))):
